@@ -75,6 +75,9 @@ enum Mutation {
     CutAfter(usize),
     StallBefore(usize),
     WrongTotal(i64),
+    /// chunk i arrives twice (late ACK, sender retransmits) and the stream ends k chunks early
+    /// with k = number of duplicates: as many chunks as announced, but not the announced ones
+    RetransmitThenCut(usize, usize),
 }
 
 fn apply_mut(chunks: &[SnapshotChunk], m: &Mutation) -> (Vec<SnapshotChunk>, Option<usize>) {
@@ -131,14 +134,71 @@ fn apply_mut(chunks: &[SnapshotChunk], m: &Mutation) -> (Vec<SnapshotChunk>, Opt
                 c.total_chunks = (c.total_chunks as i64 + d).max(0) as u32;
             }
         }
+        Mutation::RetransmitThenCut(i, k) => {
+            let n = v.len();
+            for _ in 0..*k {
+                let c = v[*i].clone();
+                v.insert(*i, c);
+            }
+            v.truncate(n);
+        }
     }
     (v, stall_at)
 }
 
+/// one to three faults in sequence, each picked against the stream as it is by then
+fn mutate(r: &mut Rng, chunks: &[SnapshotChunk]) -> (Vec<SnapshotChunk>, Option<usize>, Vec<Mutation>) {
+    let rounds = match r.below(10) {
+        0..=5 => 1,
+        6..=8 => 2,
+        _ => 3,
+    };
+    let mut v = chunks.to_vec();
+    let mut stall = None;
+    let mut ms = Vec::new();
+    for _ in 0..rounds {
+        if v.is_empty() {
+            break;
+        }
+        let m = pick_mutation(r, v.len());
+        if matches!(m, Mutation::None) && rounds > 1 {
+            continue;
+        }
+        let (v2, st) = apply_mut(&v, &m);
+        v = v2;
+        if st.is_some() {
+            stall = st;
+        }
+        ms.push(m);
+    }
+    if ms.is_empty() {
+        ms.push(Mutation::None);
+    }
+    (v, stall, ms)
+}
+
+fn same_stream(a: &[SnapshotChunk], b: &[SnapshotChunk]) -> bool {
+    a.len() == b.len()
+        && a.iter().zip(b).all(|(x, y)| {
+            x.seq == y.seq
+                && x.data == y.data
+                && x.chunk_checksum == y.chunk_checksum
+                && x.total_chunks == y.total_chunks
+                && x.leader_id == y.leader_id
+                && x.leader_term == y.leader_term
+                && x.metadata == y.metadata
+        })
+}
+
 fn pick_mutation(r: &mut Rng, n: usize) -> Mutation {
     let i = r.below(n as u64) as usize;
-    match r.below(14) {
+    match r.below(16) {
         0 | 1 => Mutation::None,
+        14 | 15 if n >= 2 => {
+            let i = r.below(n as u64 - 1) as usize;
+            let k = 1 + r.below((n - 1 - i).min(2) as u64) as usize;
+            Mutation::RetransmitThenCut(i, k)
+        }
         2 => Mutation::Drop(i),
         3 => Mutation::Duplicate(i),
         4 if n >= 2 => {
@@ -258,8 +318,10 @@ async fn one(seed: u64, dir: &Path) -> Result<(Vec<(String, Value)>, Value, bool
     let before_files = dir_listing(&snap_dir);
 
     // ---- the stream ----
-    let m = pick_mutation(&mut r, chunks.len());
-    let (stream, stall_at) = apply_mut(&chunks, &m);
+    let (stream, stall_at, ms) = mutate(&mut r, &chunks);
+    let intact = stall_at.is_none() && same_stream(&stream, &chunks);
+    let kind = ms.iter().map(|m| format!("{m:?}").split('(').next().unwrap_or("?").to_string()).collect::<Vec<_>>().join("+");
+    let m = format!("{ms:?}");
     let (tx, rx) = mpsc::channel::<SnapshotChunk>(64);
     let (resp_tx, resp_rx) = MaybeCloneOneshot::new();
     ep.event_tx.try_send(InboundEvent::InstallSnapshotChunk(rx, resp_tx)).map_err(|_| "install send failed")?;
@@ -284,9 +346,8 @@ async fn one(seed: u64, dir: &Path) -> Result<(Vec<(String, Value)>, Value, bool
     vic.shutdown_all().await;
     Cluster::<FileKind>::uninstall_hooks();
 
-    let intact = matches!(m, Mutation::None);
     let mut bad: Vec<(String, Value)> = Vec::new();
-    let desc = json!({"seed": seed, "chunks": chunks.len(), "snapshot_boundary": boundary, "donor_applied": donor_applied, "mutation": format!("{m:?}"), "victim_applied_before": before_applied});
+    let desc = json!({"seed": seed, "chunks": chunks.len(), "snapshot_boundary": boundary, "donor_applied": donor_applied, "mutation": kind.clone(), "faults": m.clone(), "victim_applied_before": before_applied});
     let show = |v: &Vec<Option<Vec<u8>>>| -> Value { json!(v.iter().map(|x| x.as_ref().map(|b| String::from_utf8_lossy(b).chars().take(12).collect::<String>())).collect::<Vec<_>>()) };
     let new_final_files: Vec<String> = after_files.keys().filter(|k| !before_files.contains_key(*k) && !k.contains("temp") && !k.contains(".part") && !k.contains("tmp")).cloned().collect();
     let changed_files: Vec<String> = before_files.iter().filter(|(k, v)| after_files.get(*k) != Some(*v)).map(|(k, _)| k.clone()).collect();
@@ -304,9 +365,8 @@ async fn one(seed: u64, dir: &Path) -> Result<(Vec<(String, Value)>, Value, bool
             }
         }
     } else {
-        let kind = format!("{m:?}").split('(').next().unwrap_or("?").to_string();
         if answered_success {
-            bad.push((format!("mutated-stream-answered-success[{kind}]"), json!({"mutation": format!("{m:?}")})));
+            bad.push((format!("mutated-stream-answered-success[{kind}]"), json!({"mutation": m.clone()})));
         }
         if after_content != before_content || after_applied != before_applied {
             bad.push((format!("state-changed-by-rejected-transfer[{kind}]"), json!({"before": show(&before_content), "after": show(&after_content), "applied_before": before_applied, "applied_after": after_applied})));
@@ -339,7 +399,7 @@ pub fn run_c17(seed: u64, runs: u64, scratch: &Path, rep: &mut ShardReport, budg
         match out {
             Err(e) => rep.inconclusive.push(format!("seed {s}: {e}")),
             Ok((bad, desc, nontrivial)) => {
-                let mk = desc["mutation"].as_str().unwrap_or("").split('(').next().unwrap_or("").to_string();
+                let mk = desc["mutation"].as_str().unwrap_or("").to_string();
                 rep.eval(nontrivial, fnv64(format!("{mk}{}", desc["chunks"]).as_bytes()));
                 rep.count(&format!("mutation_{mk}"), 1);
                 rep.count("chunks_streamed", desc["chunks"].as_u64().unwrap_or(0));
